@@ -95,6 +95,13 @@ def _case(args):
             out["violations"] = vs
         else:
             out["violations"] = []
+        if _CFG.get("alias_check") and "divergence" not in out:
+            for i, (op, obs) in enumerate(sess.trace):
+                if obs.get("aliased"):
+                    out["violations"].append({"what": "two places of the live conductor state are one Python object: %s and %s "
+                                                      "(an in-place update of one changes the other; a restored conductor "
+                                                      "does not share them)" % tuple(obs["aliased"][0]), "step": i})
+                    break
         out["features"] = features(sess) if features else {}
     except Exception:
         out["error"] = traceback.format_exc()[-2000:]
@@ -127,7 +134,7 @@ def conductor_run(ctx, prop, fam, project, monitor, features, nontrivial, n_quic
     known = [k for k in ctx["known"].get("findings", []) if prop in k.get("properties", [])]
     cfg = {"fam": fam, "project": project, "monitor": monitor, "features": features,
            "gen": gen or progs.gen_definition, "history": history or progs.run_history,
-           "known_ids": [k["id"] for k in known]}
+           "known_ids": [k["id"] for k in known], "alias_check": prop in ("C05", "C18")}
     base = (seed * 1000003) % (2 ** 31)
     seeds = [base + i for i in range(n)]
     results = run_cases(seeds, ctx["model_ok"], cfg)
